@@ -615,6 +615,9 @@ fn job_workload(master: u64, job: u64, tier: Tier) -> Vec<u8> {
     if job % 16 == 9 {
         return workload::gen_png_edge_file(&mut rng);
     }
+    if job % 16 == 13 {
+        return workload::gen_cut_trailer_file(&mut rng);
+    }
     if job % 16 == 11 {
         // a member written with a sync flush every 1-3 bytes: hundreds of tiny and empty blocks,
         // correction data that outweighs the plaintext
